@@ -172,7 +172,8 @@ Definition src_NadaFunction_init : list string :=  [
    "self.store_in_ast()"].
 
 Definition src_NadaFunction_call : list string :=  [
-   "if kwargs: ;     args = inspect.signature(self.function).bind_partial(*args, **kwargs).args"; 
+   "args = inspect.signature(self.function).bind(*args, **kwargs).args"; 
+   "if len(args) != len(self.args): ;     raise TypeError(f'{self.function.__name__}() takes {len(self.args)} arguments but {len(args)} were given')"; 
    "return self.return_type(child=NadaFunctionCall(self, args, source_ref=SourceRef.back_frame()))"].
 
 Definition src_NadaFunctionCall_init : list string :=  [
@@ -283,6 +284,7 @@ Definition src_NTuple_init : list string :=  [
    "super().__init__(self.child)"].
 
 Definition src_NTuple_new : list string :=  [
+   "values = list(values)"; 
    "return NTuple(values=values, child=NTupleNew(child=values, source_ref=SourceRef.back_frame()))"].
 
 Definition src_NTuple_getitem : list string :=  [
@@ -298,6 +300,7 @@ Definition src_Object_init : list string :=  [
    "super().__init__(self.child)"].
 
 Definition src_Object_new : list string :=  [
+   "values = dict(values)"; 
    "return Object(values=values, child=ObjectNew(child=values, source_ref=SourceRef.back_frame()))"].
 
 Definition src_Object_getattr : list string :=  [
@@ -356,7 +359,7 @@ Definition src_compile_script : list string :=  [
    "try: ;     return _compile_script(script_path) ; finally: ;     own_dir = os.path.abspath(script_dir) ;     loaded = set(sys.modules) - loaded_before ;     own = {name for name in loaded if '.' not in name and _found_in(sys.modules[name], own_dir)} ;     for name in loaded: ;         if name.split('.')[0] in own: ;             del sys.modules[name] ;     if script_dir in sys.path: ;         sys.path.remove(script_dir)"].
 
 Definition src_compile_string : list string :=  [
-   "decoded_program = base64.b64decode(script).decode('utf-8')"; 
+   "decoded_program = base64.b64decode(script).decode('utf-8-sig')"; 
    "temp_name = 'temp_program'"; 
    "spec = importlib.util.spec_from_loader(temp_name, loader=None)"; 
    "module = importlib.util.module_from_spec(spec)"; 
@@ -428,7 +431,7 @@ Definition li_guard_le : bool := true.
 Definition li_range_minus : Z := (1)%Z.
 Definition li_plus : Z := (1)%Z.
 Definition li_index_minus : Z := (1)%Z.
-Definition li_pre : list string := ["if _in_package(backend_frame.f_code.co_filename): ;     return (0, 0)"; "path = backend_frame.f_code.co_filename"; "filename = os.path.basename(path)"; "src = None"; "try: ;     stat = os.stat(path) ;     stamp = (path, stat.st_mtime_ns, stat.st_size) ;     if filename not in USED_SOURCES or _SOURCE_PATHS.get(filename) != stamp: ;         with open(path, encoding='utf-8') as file: ;             src = file.read() ;         USED_SOURCES[filename] = src ;         _SOURCE_PATHS[filename] = stamp ;     else: ;         src = USED_SOURCES[filename] ; except OSError: ;     return (0, 0)"].
+Definition li_pre : list string := ["if _in_package(backend_frame.f_code.co_filename): ;     return (0, 0)"; "path = backend_frame.f_code.co_filename"; "filename = os.path.basename(path)"; "src = None"; "try: ;     stat = os.stat(path) ;     stamp = (path, stat.st_mtime_ns, stat.st_size) ;     if filename not in USED_SOURCES or _SOURCE_PATHS.get(filename) != stamp: ;         with tokenize.open(path) as file: ;             src = file.read() ;         USED_SOURCES[filename] = src ;         _SOURCE_PATHS[filename] = stamp ;     else: ;         src = USED_SOURCES[filename] ; except (OSError, SyntaxError, UnicodeDecodeError): ;     return (0, 0)"].
 Definition li_tail : list string := ["return (0, 0)"].
 
 Definition back_frame_sites : list (string * string * Z) :=  [("nada_dsl/nada_types/__init__.py", "__init__", (1)%Z); ("nada_dsl/nada_types/collections.py", "__getattr__", (1)%Z); ("nada_dsl/nada_types/collections.py", "__getitem__", (1)%Z); ("nada_dsl/nada_types/collections.py", "inner_product", (1)%Z); ("nada_dsl/nada_types/collections.py", "map", (1)%Z); ("nada_dsl/nada_types/collections.py", "new", (1)%Z); ("nada_dsl/nada_types/collections.py", "new", (1)%Z); ("nada_dsl/nada_types/collections.py", "new", (1)%Z); ("nada_dsl/nada_types/collections.py", "new", (1)%Z); ("nada_dsl/nada_types/collections.py", "reduce", (1)%Z); ("nada_dsl/nada_types/collections.py", "unzip", (1)%Z); ("nada_dsl/nada_types/collections.py", "zip", (1)%Z); ("nada_dsl/nada_types/function.py", "__call__", (1)%Z); ("nada_dsl/nada_types/function.py", "nada_fn", (1)%Z); ("nada_dsl/nada_types/function.py", "nada_fn", (1)%Z); ("nada_dsl/nada_types/scalar_types.py", "__init__", (1)%Z); ("nada_dsl/nada_types/scalar_types.py", "__init__", (1)%Z); ("nada_dsl/nada_types/scalar_types.py", "__init__", (1)%Z); ("nada_dsl/nada_types/scalar_types.py", "__invert__", (1)%Z); ("nada_dsl/nada_types/scalar_types.py", "__invert__", (1)%Z); ("nada_dsl/nada_types/scalar_types.py", "__pow__", (1)%Z); ("nada_dsl/nada_types/scalar_types.py", "binary_arithmetic_operation", (2)%Z); ("nada_dsl/nada_types/scalar_types.py", "binary_logical_operation", (2)%Z); ("nada_dsl/nada_types/scalar_types.py", "binary_logical_operation", (2)%Z); ("nada_dsl/nada_types/scalar_types.py", "binary_relational_operation", (2)%Z); ("nada_dsl/nada_types/scalar_types.py", "ecdsa_sign", (1)%Z); ("nada_dsl/nada_types/scalar_types.py", "equals_operation", (2)%Z); ("nada_dsl/nada_types/scalar_types.py", "equals_operation", (2)%Z); ("nada_dsl/nada_types/scalar_types.py", "if_else", (1)%Z); ("nada_dsl/nada_types/scalar_types.py", "public_equals_operation", (2)%Z); ("nada_dsl/nada_types/scalar_types.py", "random", (1)%Z); ("nada_dsl/nada_types/scalar_types.py", "random", (1)%Z); ("nada_dsl/nada_types/scalar_types.py", "random", (1)%Z); ("nada_dsl/nada_types/scalar_types.py", "shift_operation", (2)%Z); ("nada_dsl/nada_types/scalar_types.py", "to_public", (1)%Z); ("nada_dsl/nada_types/scalar_types.py", "to_public", (1)%Z); ("nada_dsl/nada_types/scalar_types.py", "to_public", (1)%Z); ("nada_dsl/nada_types/scalar_types.py", "trunc_pr", (1)%Z); ("nada_dsl/nada_types/scalar_types.py", "trunc_pr", (1)%Z); ("nada_dsl/nada_types/scalar_types.py", "trunc_pr", (1)%Z); ("nada_dsl/nada_types/scalar_types.py", "trunc_pr", (1)%Z); ("nada_dsl/program_io.py", "__init__", (1)%Z); ("nada_dsl/program_io.py", "__init__", (1)%Z)].
